@@ -403,6 +403,18 @@ pub fn run(cfg: &Cfg) {
                 }
             }
         }
+        // long bursts of requests / replies that are all ready at once (more than any per-poll allowance a router
+        // might have): each one must be handed on, in order, and flushed before the router sleeps
+        for n in [63usize, 64, 65, 127, 128, 129, 130, 257] {
+            let reqs: Vec<String> = (1..=n).map(|i| format!("i:m{i}")).collect();
+            let reps: Vec<String> = (1..=n).map(|i| format!("i:m{}[cid=0]", 1000 + i)).collect();
+            let reps2: Vec<String> = (1..=n).map(|i| format!("i:m{}[cid={}]", 1000 + i, i % 2)).collect();
+            cases.push(format!("rr +s_/p,p,p +c_/{},p poll poll poll poll", reqs.join(",")));
+            cases.push(format!("rr +c_/p,p,p +s_/{},p poll poll poll poll", reps.join(",")));
+            cases.push(format!("rr +c_/{},p +s_/{},p poll poll poll poll", reqs.join(","), reps.join(",")));
+            cases.push(format!("rr +c_/p,p +cf=PR/p,p +s_/{},p poll poll poll poll", reps2.join(",")));
+            cases.push(format!("rr +s_/{},p +c_/{},p poll poll close poll poll", reps.join(","), reqs.join(",")));
+        }
         let mut r = Rng::new(cfg.seed, "reqrep");
         for _ in 0..cfg.n(4000, 200_000) {
             let bias = *r.pick(&[0u64, 0, 3, 8]);
